@@ -25,13 +25,13 @@ TNext ==
          wl == FromLog(r.st)
      IN IF r.tx.k = "reset"
         THEN /\ w' = wl /\ g' = [InitGhost EXCEPT !.steps = l] /\ obs' = r.obs
-             /\ ev' = [tx |-> r.tx, ok |-> TRUE, err |-> "", fx |-> <<>>]
+             /\ ev' = [tx |-> r.tx, ok |-> TRUE, err |-> "", fx |-> <<>>, same |-> TRUE]
              /\ LET okk == r.obs = ObsOf(wl) IN
                 /\ conf' = (conf /\ okk)
                 /\ firstBad' = IF firstBad = 0 /\ ~okk THEN l ELSE firstBad
                 /\ badInfo' = IF firstBad = 0 /\ ~okk THEN <<"reset: observations differ">> ELSE badInfo
         ELSE /\ w' = wl /\ obs' = r.obs
-             /\ ev' = [tx |-> r.tx, ok |-> r.ok, err |-> r.err, fx |-> r.fx]
+             /\ ev' = [tx |-> r.tx, ok |-> r.ok, err |-> r.err, fx |-> r.fx, same |-> r.same]
              /\ g' = [GhostNext(g, w, r.tx, r.ok, wl, r.fx) EXCEPT !.steps = l]
              /\ LET o   == Apply(r.tx, w)
                     okk == /\ o.ok = r.ok
